@@ -149,14 +149,15 @@ void drv_apply(const char* op)
     else if(IS("resize")) { if(n >= 0 && n <= LMAX) s.resize((usize)n); else ok = 0; }
     else if(IS("reserve")) { if(n >= 0 && n <= 4 * LMAX) s.reserve((usize)n); else ok = 0; }
     else if(IS("detach")) s.detach();
-    else if(IS("replacec")) { if(nulfreeS(s) && n >= 1 && n <= 255 && n2 >= 0 && n2 <= 255) s.replace((char)n, (char)n2); else ok = 0; }
+    else if(IS("replacec")) { if(n >= 1 && n <= 255 && n2 >= 0 && n2 <= 255) s.replace((char)n, (char)n2); else ok = 0; }
     else if(IS("replace"))
     {
-      if(VAR(k) && VAR(m) && nulfreeS(s) && nulfreeS(*S[k]) && S[k]->data->len > 0 && LEN(i) <= LMAX && LEN(i) * LEN(m) <= 4 * LMAX) s.replace(*S[k], *S[m]);
+      // (an empty needle must at least return: a short alarm keeps a non-terminating replace from eating the machine's memory)
+      if(VAR(k) && VAR(m) && nulfreeS(s) && nulfreeS(*S[k]) && LEN(i) <= LMAX && LEN(i) * LEN(m) <= 4 * LMAX) { if(S[k]->data->len == 0) alarm(2); s.replace(*S[k], *S[m]); alarm(g_op_timeout); }
       else ok = 0;
     }
-    else if(IS("lower")) { if(nulfreeS(s)) s.toLowerCase(); else ok = 0; }
-    else if(IS("upper")) { if(nulfreeS(s)) s.toUpperCase(); else ok = 0; }
+    else if(IS("lower")) s.toLowerCase();
+    else if(IS("upper")) s.toUpperCase();
     else if(IS("trim")) { if(nulfreeS(s) && nulfree(d, dn)) s.trim((const char*)d); else ok = 0; }
     else if(IS("printf"))
     {
